@@ -14,11 +14,11 @@ pub fn has_method(module: &str, name: &str) -> bool {
         "koto" => &["type", "copy", "deep_copy", "unimplemented", "size"],
         "list" => &[
             "push", "pop", "size", "first", "last", "get", "insert", "remove", "clear", "contains", "is_empty",
-            "to_tuple", "extend",
+            "to_tuple", "extend", "sort", "reverse", "fill",
         ],
         "tuple" => &["size", "first", "last", "get", "contains", "to_list", "is_empty"],
         "map" => &[
-            "insert", "get", "remove", "size", "contains_key", "is_empty", "keys", "values", "with_meta",
+            "insert", "get", "remove", "size", "contains_key", "is_empty", "keys", "values", "with_meta", "sort", "update", "extend", "get_index", "clear",
         ],
         "string" => &["size", "to_uppercase", "to_lowercase", "contains", "is_empty", "chars"],
         "range" => &["start", "end", "size", "contains"],
@@ -32,7 +32,39 @@ pub fn has_method(module: &str, name: &str) -> bool {
 
 /// names that exist in the real core library but are not modelled by kref (so that a generated
 /// program using them is skipped instead of being judged)
+thread_local! {
+    static REAL_CORE: std::cell::RefCell<Option<std::collections::HashSet<String>>> = const { std::cell::RefCell::new(None) };
+}
+
+/// Does the *real* core library have `module.name`? Only used to decide between "runtime error"
+/// and "not modelled by kref" for names kref does not know: a name the real library has is never
+/// judged by the reference.
+pub fn real_core_has(module: &str, name: &str) -> bool {
+    REAL_CORE.with(|c| {
+        let mut c = c.borrow_mut();
+        if c.is_none() {
+            use koto::prelude::*;
+            let koto = Koto::with_settings(KotoSettings::default());
+            let mut set = std::collections::HashSet::new();
+            for m in ["list", "map", "string", "tuple", "range", "number", "iterator", "koto", "test", "io", "os"] {
+                if let Some(KValue::Map(mm)) = koto.prelude().get(m) {
+                    for (k, _) in mm.data().iter() {
+                        if let KValue::Str(s) = k.value() {
+                            set.insert(format!("{m}.{s}"));
+                        }
+                    }
+                }
+            }
+            *c = Some(set);
+        }
+        c.as_ref().unwrap().contains(&format!("{module}.{name}"))
+    })
+}
+
 pub fn known_core_name(module: &str, name: &str) -> bool {
+    if real_core_has(module, name) {
+        return true;
+    }
     let list: &[&str] = match module {
         "map" => &[
             "clear", "extend", "get_index", "get_meta", "sort", "update", "with_meta", "keys", "values", "remove", "insert", "get",
@@ -71,25 +103,34 @@ fn size_of(ip: &Rc<Interp>, v: &V) -> R {
 }
 
 fn deep_copy(v: &V) -> Result<V, Ctl> {
+    deep_copy_d(v, 0)
+}
+
+/// A container that (transitively) contains itself has no finite tree: the copy does not
+/// terminate (in koto: native stack exhaustion), which the model leaves undefined.
+fn deep_copy_d(v: &V, depth: usize) -> Result<V, Ctl> {
+    if depth > 64 {
+        return Err(Ctl::Unmodelled("deep_copy of a self-containing (or > 64 deep) container".into()));
+    }
     Ok(match v {
         V::List(l) => {
             let mut out = vec![];
             for x in l.borrow().iter() {
-                out.push(deep_copy(x)?);
+                out.push(deep_copy_d(x, depth + 1)?);
             }
             V::list(out)
         }
         V::Tuple(t) => {
             let mut out = vec![];
             for x in t.iter() {
-                out.push(deep_copy(x)?);
+                out.push(deep_copy_d(x, depth + 1)?);
             }
             V::tuple(out)
         }
         V::Map(m) => {
             let mut out = vec![];
             for (k, x) in m.entries.borrow().iter() {
-                out.push((k.clone(), deep_copy(x)?));
+                out.push((k.clone(), deep_copy_d(x, depth + 1)?));
             }
             let nm = MapObj {
                 entries: RefCell::new(out),
@@ -344,6 +385,111 @@ pub fn call_native(ip: Rc<Interp>, n: Rc<NativeFn>, mut args: Vec<V>, this: Opti
                         Some(i) => Ok(e.remove(i).1),
                         None => Ok(V::Null),
                     }
+                }
+                _ => rt("args"),
+            },
+            "list.reverse" => match args.as_slice() {
+                [V::List(l)] => {
+                    l.borrow_mut().reverse();
+                    Ok(args[0].clone())
+                }
+                _ => rt("args"),
+            },
+            "list.fill" => match args.as_slice() {
+                [V::List(l), v] => {
+                    for x in l.borrow_mut().iter_mut() {
+                        *x = v.clone();
+                    }
+                    Ok(args[0].clone())
+                }
+                _ => rt("args"),
+            },
+            "list.sort" => match args.as_slice() {
+                [V::List(l)] => {
+                    let mut items = l.borrow().clone();
+                    sort_plain(&mut items)?;
+                    *l.borrow_mut() = items;
+                    Ok(args[0].clone())
+                }
+                _ => Err(Ctl::Unmodelled("list.sort with key".into())),
+            },
+            "map.sort" => match args.as_slice() {
+                [V::Map(m)] => {
+                    let mut entries = m.entries.borrow().clone();
+                    let mut keys: Vec<V> = entries.iter().map(|(k, _)| k.clone()).collect();
+                    sort_plain(&mut keys)?;
+                    let mut out = vec![];
+                    for k in keys {
+                        let i = entries.iter().position(|(k2, _)| values_equal_plain(&k, k2)).unwrap();
+                        out.push(entries.remove(i));
+                    }
+                    *m.entries.borrow_mut() = out;
+                    Ok(args[0].clone())
+                }
+                _ => Err(Ctl::Unmodelled("map.sort with key".into())),
+            },
+            "map.clear" => match args.as_slice() {
+                [V::Map(m)] => {
+                    m.entries.borrow_mut().clear();
+                    Ok(args[0].clone())
+                }
+                _ => rt("args"),
+            },
+            "map.get_index" => match args.as_slice() {
+                [V::Map(m), V::Int(i)] => {
+                    let e = m.entries.borrow();
+                    if *i < 0 {
+                        return Err(Ctl::Unmodelled("negative get_index".into()));
+                    }
+                    Ok(match e.get(*i as usize) {
+                        Some((k, v)) => V::tuple(vec![k.clone(), v.clone()]),
+                        None => V::Null,
+                    })
+                }
+                _ => rt("args"),
+            },
+            "map.update" => {
+                let (m, key, default, f) = match args.as_slice() {
+                    [V::Map(m), k, f] => (m.clone(), k.clone(), V::Null, f.clone()),
+                    [V::Map(m), k, d, f] => (m.clone(), k.clone(), d.clone(), f.clone()),
+                    _ => return rt("args"),
+                };
+                check_key(&key)?;
+                let cur = m.get(&key).unwrap_or(default);
+                let r = call_value(ip.clone(), f, vec![cur], None).await?;
+                m.insert(key, r.clone());
+                Ok(r)
+            }
+            "map.extend" => match args.as_slice() {
+                [V::Map(m), V::Map(o)] => {
+                    if Rc::ptr_eq(m, o) {
+                        return Ok(args[0].clone());
+                    }
+                    let entries = o.entries.borrow().clone();
+                    for (k, v) in entries {
+                        m.insert(k, v);
+                    }
+                    Ok(args[0].clone())
+                }
+                [V::Map(m), other] => {
+                    let it = make_iter(ip.clone(), other.clone()).await?;
+                    let mut new = vec![];
+                    while let Some(x) = iter_next(ip.clone(), &it).await? {
+                        match &x {
+                            V::Tuple(t) if t.len() == 2 => {
+                                check_key(&t[0])?;
+                                new.push((t[0].clone(), t[1].clone()))
+                            }
+                            other => {
+                                check_key(other)?;
+                                new.push((other.clone(), V::Null))
+                            }
+                        }
+                    }
+                    for (k, v) in new {
+                        m.insert(k, v);
+                    }
+                    Ok(args[0].clone())
                 }
                 _ => rt("args"),
             },
@@ -623,4 +769,25 @@ pub fn host_op(ip: Rc<Interp>, name: &str, me: V, args: Vec<V>) -> Fut {
             other => Err(Ctl::Unmodelled(format!("host op {other}"))),
         }
     })
+}
+
+/// sorts numbers (numerically) or strings (byte-wise); anything else is an error
+pub fn sort_plain(items: &mut Vec<V>) -> Result<(), Ctl> {
+    if items.iter().all(|v| v.is_num()) {
+        if items.iter().any(|v| matches!(v, V::Float(f) if f.is_nan())) {
+            return Err(Ctl::Unmodelled("sorting NaN".into()));
+        }
+        items.sort_by(|a, b| a.as_f64().unwrap().partial_cmp(&b.as_f64().unwrap()).unwrap());
+        Ok(())
+    } else if items.iter().all(|v| matches!(v, V::Str(_))) {
+        items.sort_by(|a, b| match (a, b) {
+            (V::Str(x), V::Str(y)) => x.as_bytes().cmp(y.as_bytes()),
+            _ => std::cmp::Ordering::Equal,
+        });
+        Ok(())
+    } else if items.len() <= 1 {
+        Ok(())
+    } else {
+        Err(Ctl::Unmodelled("sorting values of mixed or unordered kinds".into()))
+    }
 }
